@@ -1,0 +1,173 @@
+//go:build verif
+
+// Machine-checked contracts for package storage (comment-only; read by /verif/cmd/govc).
+// With the build tag off this file is not compiled; with it on it adds nothing.
+
+package storage
+
+// ---- key construction (C06; used by C01, C05, C19) ----
+
+//@ func constructDataKey
+//@   prop C06
+//@   ensures keyIs(result, uint32(i), tk, uint32(v), uint32(c), 3)
+//@   ensures fresh(result)
+
+//@ func DataContext.ConstructKey
+//@   prop C06
+//@   requires ctx != nil && ctx.data != nil
+//@   ensures keyIs(result, uint32(ctx.data.InstanceID()), tk, uint32(ctx.version), uint32(ctx.client), 3)
+//@   ensures fresh(result)
+
+//@ func DataContext.ConstructKeyVersion
+//@   prop C06
+//@   requires ctx != nil && ctx.data != nil
+//@   ensures keyIs(result, uint32(ctx.data.InstanceID()), tk, uint32(version), uint32(ctx.client), 3)
+//@   ensures fresh(result)
+
+//@ func DataContext.TombstoneKey
+//@   prop C06 C01
+//@   requires ctx != nil && ctx.data != nil
+//@   ensures keyIs(result, uint32(ctx.data.InstanceID()), tk, uint32(ctx.version), uint32(ctx.client), 0x4F)
+//@   ensures fresh(result)
+
+//@ func DataContext.TombstoneKeyVersion
+//@   prop C06 C01
+//@   requires ctx != nil && ctx.data != nil
+//@   ensures keyIs(result, uint32(ctx.data.InstanceID()), tk, uint32(version), uint32(ctx.client), 0x4F)
+//@   ensures fresh(result)
+
+//@ func DataContext.MinVersionKey
+//@   prop C06 C05
+//@   requires ctx != nil && ctx.data != nil
+//@   ensures result1 == nil
+//@   ensures keyIs(result0, uint32(ctx.data.InstanceID()), tk, 0, 0, 0)
+//@   ensures fresh(result0)
+
+//@ func DataContext.MaxVersionKey
+//@   prop C06 C05
+//@   requires ctx != nil && ctx.data != nil
+//@   ensures result1 == nil
+//@   ensures keyIs(result0, uint32(ctx.data.InstanceID()), tk, 0xFFFFFFFF, 0xFFFFFFFF, 0xFF)
+//@   ensures fresh(result0)
+
+//@ func MaxVersionDataKey
+//@   prop C06
+//@   ensures result1 == nil
+//@   ensures keyIs(result0, uint32(d), tk, 0xFFFFFFFF, 0xFFFFFFFF, 0xFF)
+//@   ensures fresh(result0)
+
+//@ func DataContext.UnversionedKeyPrefix
+//@   prop C06
+//@   requires ctx != nil && ctx.data != nil
+//@   ensures prefixIs(result, uint32(ctx.data.InstanceID()), tk)
+//@   ensures fresh(result)
+
+//@ func DataContext.UnversionedKey
+//@   prop C06
+//@   requires ctx != nil && ctx.data != nil
+//@   ensures result2 == nil && result1 == ctx.version
+//@   ensures prefixIs(result0, uint32(ctx.data.InstanceID()), tk)
+
+// ---- key parsing ----
+
+//@ func Key.IsTombstone
+//@   prop C06 C01
+//@   ensures result == (len(k) > 0 && k[len(k)-1] == 0x4F)
+
+//@ func Key.IsDataKey
+//@   prop C06
+//@   ensures result == (len(k) >= 14 && k[0] == 1)
+
+//@ func TKeyFromKey
+//@   prop C06 C05 C20
+//@   requires key != nil ==> len(key) >= 1
+//@   requires key != nil && key[0] == 1 ==> len(key) >= 14
+//@   ensures key == nil ==> result1 != nil
+//@   ensures key != nil && key[0] == 1 ==> result1 == nil && len(result0) == len(key) - 14 && result0.arr == key.arr && result0.off == key.off + 5
+//@   ensures key != nil && key[0] == 0 ==> result1 == nil && len(result0) == len(key) - 1 && result0.arr == key.arr && result0.off == key.off + 1
+//@   ensures key != nil && key[0] > 1 ==> result1 != nil
+
+//@ func DataContext.VersionFromKey
+//@   prop C06 C01
+//@   requires key != nil ==> len(key) >= 1
+//@   ensures (key == nil || key[0] != 1 || len(key) < 14) <==> err != nil
+//@   ensures err == nil ==> uint32(result0) == be32(key, len(key) - 9)
+
+//@ func VersionFromDataKey
+//@   prop C06
+//@   requires key != nil ==> len(key) >= 1
+//@   ensures (key == nil || key[0] != 1 || len(key) < 14) <==> err != nil
+//@   ensures err == nil ==> uint32(result0) == be32(key, len(key) - 9)
+
+//@ func DataContext.ClientFromKey
+//@   prop C06
+//@   requires key != nil ==> len(key) >= 1
+//@   ensures (key == nil || key[0] != 1 || len(key) < 14) <==> err != nil
+//@   ensures err == nil ==> uint32(result0) == be32(key, len(key) - 5)
+
+//@ func DataContext.InstanceFromKey
+//@   prop C06
+//@   requires key != nil ==> len(key) >= 1
+//@   ensures (key == nil || key[0] != 1 || len(key) < 5) <==> err != nil
+//@   ensures err == nil ==> uint32(result0) == be32(key, 1)
+
+//@ func DataKeyToLocalIDs
+//@   prop C06
+//@   requires len(k) >= 14
+//@   ensures k[0] != 1 <==> result3 != nil
+//@   ensures result3 == nil ==> uint32(result0) == be32(k, 1) && uint32(result1) == be32(k, len(k) - 9) && uint32(result2) == be32(k, len(k) - 5)
+
+// ---- ranges ----
+
+//@ func DataContext.KeyRange
+//@   prop C06 C19
+//@   requires ctx != nil && ctx.data != nil
+//@   ensures instPrefix(min, uint32(ctx.data.InstanceID()))
+//@   ensures instPrefix(max, uint32(ctx.data.InstanceID()) + 1)
+
+//@ func DataInstanceKeyRange
+//@   prop C06
+//@   ensures instPrefix(minKey, uint32(d))
+//@   ensures instPrefix(maxKey, uint32(d) + 1)
+
+// ---- in-place re-keying (C19) ----
+
+//@ func DataContext.UpdateInstance
+//@   prop C06 C19
+//@   requires ctx != nil && ctx.data != nil && len(k) >= 14
+//@   modifies k[*]
+//@   ensures old(k[0]) != 1 <==> result != nil
+//@   ensures result == nil ==> be32(k, 1) == uint32(ctx.data.InstanceID())
+//@   ensures result == nil ==> k[0] == 1 && (forall j int :: 5 <= j && j < len(k) ==> k[j] == old(k[j]))
+//@   ensures result != nil ==> (forall j int :: 0 <= j && j < len(k) ==> k[j] == old(k[j]))
+
+//@ func ChangeDataKeyInstance
+//@   prop C06
+//@   requires len(k) >= 14
+//@   modifies k[*]
+//@   ensures old(k[0]) != 1 <==> result != nil
+//@   ensures result == nil ==> be32(k, 1) == uint32(instance)
+//@   ensures result == nil ==> k[0] == 1 && (forall j int :: 5 <= j && j < len(k) ==> k[j] == old(k[j]))
+
+//@ func ChangeDataKeyVersion
+//@   prop C06
+//@   requires len(k) >= 14
+//@   modifies k[*]
+//@   ensures old(k[0]) != 1 <==> result != nil
+//@   ensures result == nil ==> be32(k, len(k) - 9) == uint32(v)
+//@   ensures result == nil ==> (forall j int :: 0 <= j && j < len(k) && (j < len(k) - 9 || j >= len(k) - 5) ==> k[j] == old(k[j]))
+
+//@ func UpdateDataKey
+//@   prop C06
+//@   requires len(k) >= 14
+//@   modifies k[*]
+//@   ensures old(k[0]) != 1 <==> result != nil
+//@   ensures result == nil ==> be32(k, 1) == uint32(instance) && be32(k, len(k) - 9) == uint32(version) && be32(k, len(k) - 5) == uint32(client)
+//@   ensures result == nil ==> (forall j int :: 5 <= j && j < len(k) - 9 ==> k[j] == old(k[j])) && k[len(k)-1] == old(k[len(k)-1]) && k[0] == 1
+
+//@ func MaxVersionDataKeyFromKey
+//@   prop C06 C05
+//@   requires len(key) >= 14
+//@   ensures fresh(result) && len(result) == len(key)
+//@   ensures be32(result, len(key) - 9) == 0xFFFFFFFF && be32(result, len(key) - 5) == 0xFFFFFFFF && result[len(key) - 1] == 0xFF
+//@   ensures forall j int :: 0 <= j && j < len(key) - 9 ==> result[j] == key[j]
